@@ -7,6 +7,7 @@ from core import da, Axis, DimArray, Dataset
 from .base import Prop
 from .c06 import lab_key
 from . import c01, c02, c19
+from .c14 import rv as c14rv
 
 NCDIR = os.path.join(core.WORK, "nc")
 
@@ -71,7 +72,9 @@ def same(x, y, meta=True):
 
 class C20(Prop):
     id = "C20"
-    theorems = ["sim_store", "load_store", "ondisk_read_eq_take", "ncPut_spec", "ncPut_length", "ondisk_write_eq_put", "ondisk_write_error", "ondisk_history", "ondisk_history_read", "writeRecord_append"]
+    theorems = ["sim_store", "load_store", "ondisk_read_eq_take", "ncPut_spec", "ncPut_length", "ondisk_write_eq_put", "ondisk_write_error", "ondisk_history", "ondisk_history_read", "writeRecord_append",
+                "read_multi_eq_memory", "read_multi_inconsistent", "read_multi_file_error", "read_multi_var_eq_memory",
+                "read_multi_consistent_counterexample"]
     rule = ("files written through dimarray (vendored netCDF4 stand-in): a variable of rank 0-3 with int/float/str labels in any "
             "order is read through the on-disk handle - open_nc(f)[name][idx], .ix / .loc / .sel / .isel, read_nc(f, name, "
             "indices=, indexing=, tol=) - with every index form of C01/C02 (scalars, lists, masks, slices, dicts, tolerance) in "
@@ -83,7 +86,10 @@ class C20(Prop):
             "open_nc(f)[dimname]; records written beyond the end of an unlimited dimension one or several at a time, also by writes that start on the last existing records and run on beyond the end (int / "
             "float / str labels, float / int values), read after each write, rewritten afterwards; lists of 2-3 files or a "
             "glob pattern read at once (new axis / existing axis; keys given, default, re-indexing; names str / list; "
-            "indices=; concatenate_only) against stack_ds / concatenate_ds of the single reads. "
+            "indices=; concatenate_only) against stack_ds / concatenate_ds of the single reads, and - outcome, error class, keys, "
+            "dimensions, labels, label kinds, cells - against the model's multi-file read (OnDisk.readMulti / readMultiVar of "
+            "Lib/OnDiskMulti.lean: per-file DatasetOnDisk.read on the flat stores, the consistency loop, the dispatch to "
+            "DSV.concatenateDsA + reindexAxisDs / DSV.stackDsA with align / sort / join / keys; driver op read_multi). "
             "Non-trivial = rank >= 1; distinct = canonical JSON")
     assumptions = ["PARTIAL: the vendored stand-in's fidelity to netCDF4-python / libnetcdf (orthogonal indexing with "
                    "unsorted / repeated integer sequences, 0-d variables, unlimited dimensions) is assumed"]
@@ -582,13 +588,13 @@ class C20(Prop):
                 bad.append("dataset_attrs")
         return {"ok": {"got": got, "expected": exp, "multi": True, "loaded_bad": bad}}
 
-    def multi(self, c, paths):
+    def multi_build(self, c):
+        """the Datasets that are written to the files of a 'multi' case, and the numbers of their files"""
         dds = [copy.deepcopy(c["ds"]) for _ in range(c["n"])]
         if c.get("secondary"):
             for ddi, labs in zip(dds, c["secondary"]["labels"]):
                 ddi["axes"][c["secondary"]["dim"]]["labels"] = labs
         dss = [c19.build_ds(ddi, base=10 * i) for i, ddi in enumerate(dds)]
-        opts = dict(c.get("opts") or {})
         d0 = c["ds"]["dims"][0]
         if c["how"] == "concat":
             # files hold consecutive pieces along the first dimension: relabel so that labels differ
@@ -605,6 +611,24 @@ class C20(Prop):
             ks.reverse()
         elif not c.get("glob") and c.get("file_order") == "rot":
             ks = ks[1:] + ks[:1]
+        return dss, ks
+
+    def multi_keys(self, c, dss):
+        """the keys= argument of a 'multi' case (None: not given)"""
+        if c["how"] == "stack":
+            return {"default": None, "numbers": [10 * (i + 1) for i in range(c["n"])]}.get(c.get("keys"), ["f%d" % i for i in range(c["n"])])
+        if c.get("keys"):
+            # positions in the joined axis -> labels (numeric axis, made distinct above)
+            d0 = c["ds"]["dims"][0]
+            alll = np.concatenate([ds.axes[d0].values for ds in dss])
+            keys = [alll[k] if k >= 0 else alll.max() + 1000 for k in c["keys"]]
+            return np.array(keys, dtype=alll.dtype).tolist()
+        return None
+
+    def multi(self, c, paths):
+        dss, ks = self.multi_build(c)
+        opts = dict(c.get("opts") or {})
+        d0 = c["ds"]["dims"][0]
         for i, ds in enumerate(dss):
             p = self.path(c, ks[i]); paths.append(p)
             ds.write_nc(p)
@@ -633,7 +657,7 @@ class C20(Prop):
         jopts = {k: v for k, v in opts.items() if k != "concatenate_only"}
         note = {}
         if c["how"] == "stack":
-            keys = {"default": None, "numbers": [10 * (i + 1) for i in range(c["n"])]}.get(c.get("keys"), ["f%d" % i for i in range(c["n"])])
+            keys = self.multi_keys(c, dss)
             kk = {} if keys is None else {"keys": keys}
             rk = copy.deepcopy(rkw)
             got = core.guarded(lambda: da.read_nc(arg, names, axis="file", **kk, **opts, **rk))
@@ -650,12 +674,7 @@ class C20(Prop):
             else:
                 exp = core.guarded(lambda: pick(da.stack_ds([single(p) for p in paths], axis="file", keys=keys, **jopts)))
         else:
-            keys = None
-            if c.get("keys"):
-                # positions in the joined axis -> labels (numeric axis, made distinct above)
-                alll = np.concatenate([ds.axes[d0].values for ds in dss])
-                keys = [alll[k] if k >= 0 else alll.max() + 1000 for k in c["keys"]]
-                keys = np.array(keys, dtype=alll.dtype).tolist()
+            keys = self.multi_keys(c, dss)
             kk = {} if keys is None else {"keys": keys}
             rk = copy.deepcopy(rkw)
             got = core.guarded(lambda: o(da.read_nc(arg, names, axis=d0, **kk, **opts, **rk)))
@@ -726,6 +745,8 @@ class C20(Prop):
                 steps.append({"kind": st["case"]["kind"], "index": st["case"]["index"], "cfg": cfg, "rshape": st["rshape"],
                               "base": st["base"]})
             return {"op": "ondisk_history", "arrays": [core.lean_array(gen.clean(c["array"]), None)], "steps": steps}
+        if c["op"] == "multi":
+            return self.multi_request(c)
         if self.lean_unlimited(c):
             arr = c["array"]
             n0 = len(arr["axes"][0]["labels"])
@@ -735,6 +756,96 @@ class C20(Prop):
             return {"op": "ondisk_history", "arrays": [core.lean_array(gen.clean(start), None)], "steps": steps}
         return {"op": "union", "a": {"name": "x", "kind": "i", "labels": []}, "b": {"name": "x", "kind": "i", "labels": []}, "join": "outer"}
 
+    # ------------------------------------------------------------ multi-file reads in the model (Lib/OnDiskMulti.lean)
+    @staticmethod
+    def lean_file(ds):
+        """a Dataset that is written to a file, as the driver reads it (built variable by variable, then stored)"""
+        arrs = []
+        for k in ds.keys():
+            a = ds[k]
+            vals = np.asarray(a.values)
+            nan = [int(i) for i in np.flatnonzero(np.isnan(vals.reshape(-1)))] if vals.dtype.kind == "f" else []
+            arrs.append({"axes": [{"name": ax.name, "kind": core.ckind(ax.values.dtype.kind),
+                                   "labels": [core.enc_label(v) for v in ax.values.tolist()], "attrs": []} for ax in a.axes],
+                         "vkind": core.ckind(vals.dtype.kind), "attrs": [], "nan": nan})
+        return {"keys": list(ds.keys()), "arrays": arrs, "attrs": []}
+
+    def multi_request(self, c):
+        with warnings.catch_warnings():
+            warnings.simplefilter("ignore")
+            dss, ks = self.multi_build(c)
+            keys = self.multi_keys(c, dss)
+        opts = c.get("opts") or {}
+        names = c.get("names")
+        r = {"op": "read_multi", "files": [self.lean_file(ds) for ds in dss],
+             "names": None if isinstance(names, str) else names, "name": names if isinstance(names, str) else None,
+             "axis": "file" if c["how"] == "stack" else c["ds"]["dims"][0],
+             "align": bool(opts.get("align")), "sort": bool(opts.get("sort")), "join": opts.get("join") or "outer",
+             "concatenate_only": bool(c.get("concatenate_only")),
+             # the default keys are the file names without extension: file k of the list is written "@k" here
+             "default_keys": [["s", "@%d" % i] for i in range(len(dss))]}
+        if keys is not None:
+            ka = np.asarray(keys)
+            r["keys"] = [core.enc_label(v) for v in ka.tolist()]
+            r["keykind"] = "O" if ka.dtype.kind in "US" else core.ckind(ka.dtype.kind)      # (an Axis holds strings as objects)
+        idx = c.get("indices")
+        if idx:
+            r["index"] = {"dim": idx["dim"], "ix": idx["ix"],
+                          "cfg": {"captured": "label", "indexing": idx["mode"], "toggle": False, "tol": None, "keepdims": False}}
+        return r
+
+    def multi_lean_vs_impl(self, c, io, ans):
+        """correspondence: `OnDisk.readMulti` / `readMultiVar` against read_nc(list of files)"""
+        lean = ans.get("lib")
+        if not isinstance(lean, dict) or ("ok" not in lean and "err" not in lean):
+            return ["lean.multi.no_answer"]
+        got = io["ok"]["got"]
+        names = c.get("names")
+        if isinstance(names, str):
+            lean = ans.get("libvar") or lean
+        if "err" in got or "err" in lean:
+            if ("err" in got) != ("err" in lean):
+                return ["lean.multi.outcome"]
+            return [] if got["err"] == lean["err"] else ["lean.multi.errclass"]
+        with warnings.catch_warnings():
+            warnings.simplefilter("ignore")
+            dss, ks = self.multi_build(c)
+        env = core.CellEnv([np.asarray(ds[k].values) for ds in dss for k in ds.keys()])
+        g = got["ok"]
+        default_keys = c["how"] == "stack" and c.get("keys") == "default"
+
+        def labs(name, labels):
+            if default_keys and name == "file":
+                return [("s", "@%d" % i) for i in range(len(labels))]      # (that they name the files: `multi.default_keys`)
+            return [lab_key(l) for l in labels]
+
+        def cmp_var(gv, lv, tag):
+            lv = core.lean_obs_to_canon(lv, env)
+            if gv["dims"] != lv["dims"] or gv["shape"] != lv["shape"]:
+                return [tag + ":dims"]
+            if [(a["name"], labs(a["name"], a["labels"])) for a in gv["axes"]] != [(a["name"], labs(a["name"], a["labels"])) for a in lv["axes"]]:
+                return [tag + ":labels"]
+            if [c14rv(v) for v in gv["values"]] != [c14rv(v) for v in lv["values"]]:
+                return [tag + ":values"]
+            if [a["kind"] for a in gv["axes"] if a["labels"]] != [a["kind"] for a in lv["axes"] if a["labels"]]:
+                return [tag + ":label_kind"]
+            return []
+        if isinstance(names, str):
+            return cmp_var(g["vars"][names], lean["ok"], "lean.multi.array")
+        lo = lean["ok"]
+        if g["keys"] != lo["keys"]:
+            return ["lean.multi.keys"]
+        bad = []
+        if g["dims"] != lo["dims"]:
+            bad.append("lean.multi.dims")
+        else:
+            for ax in lo["axes"]:
+                if labs(ax["name"], g["axes"][ax["name"]]["labels"]) != labs(ax["name"], ax["labels"]):
+                    bad.append("lean.multi.axis:" + ax["name"])
+        for k in g["keys"]:
+            bad += cmp_var(g["vars"][k], lo["vars"][k], "lean.multi.var:" + k)
+        return bad
+
     def lean_unlimited(self, c):
         """the mirror models one record after the other along the first dimension (float values)"""
         return (c["op"] == "unlimited" and c.get("udim", 0) == 0 and not c.get("overwrite") and c["array"].get("vkind", "f") == "f"
@@ -743,6 +854,8 @@ class C20(Prop):
     def lean_vs_impl(self, c, io, ans):
         """correspondence: the Lean on-disk model against the on-disk implementation"""
         bad = []
+        if c["op"] == "multi" and "ok" in io:
+            return self.multi_lean_vs_impl(c, io, ans)
         if "ok" not in io or "lib" not in ans or not isinstance(ans["lib"], list):
             return bad
         o = io["ok"]
